@@ -56,7 +56,11 @@ fn main() {
         "build-bench" => threadsim::build_bench(),
         "huge" if args.len() >= 5 => {
             let t0 = std::time::Instant::now();
-            let (v, matches, bytes) = streamdrv::huge_run(args[2].parse().unwrap(), args[3].parse().unwrap(), args[4].parse().unwrap());
+            let (v, matches, bytes) = if args.get(5).map(|a| a == "replace").unwrap_or(false) {
+                streamdrv::huge_replace_run(args[2].parse().unwrap(), args[3].parse().unwrap(), args[4].parse().unwrap())
+            } else {
+                streamdrv::huge_run(args[2].parse().unwrap(), args[3].parse().unwrap(), args[4].parse().unwrap())
+            };
             println!("huge: {:?} matches={} bytes={} in {:.1}s", v, matches, bytes, t0.elapsed().as_secs_f64());
             if v.is_some() { 1 } else { 0 }
         }
